@@ -989,3 +989,25 @@ def int_to_byte(x, mode=None):
     if x.bv:
         return z3.simplify(z3.Extract(7, 0, x.t))
     return z3.Int2BV(x.t, 8)
+
+
+# --------------------------------------------------------------------------
+# sets with symbolic elements
+# --------------------------------------------------------------------------
+class SymSet(object):
+    """A set display whose elements are (partly) symbolic: membership is decided by equality with the elements.
+    Only singleton sets have a known size (larger ones may contain equal elements)."""
+
+    def __init__(self, elems):
+        self.elems = list(elems)
+
+    def __iter__(self):
+        return iter(self.elems)
+
+    def __len__(self):
+        if len(self.elems) <= 1:
+            return len(self.elems)
+        raise Unsupported('size of a set with several symbolic elements')
+
+    def __repr__(self):
+        return 'SymSet(%r)' % (self.elems,)
